@@ -3,112 +3,24 @@ package main
 import (
 	"fmt"
 
-	dtpb "github.com/google/fhir/go/proto/google/fhir/proto/r4/core/datatypes_go_proto"
-	opb "github.com/google/fhir/go/proto/google/fhir/proto/r4/core/resources/organization_go_proto"
-	"github.com/verily-src/fhirpath-go/fhirpath/patch"
+	"github.com/verily-src/fhirpath-go/fhirpath"
 	"github.com/verily-src/fhirpath-go/fhirpath/zzverif/lib"
 	"github.com/verily-src/fhirpath-go/internal/fhir"
-	"google.golang.org/protobuf/proto"
 )
 
-func try(what string, fn func(res fhir.Resource) error) {
-	res := lib.LoadModelResource("MR1").(fhir.Resource)
-	pre := proto.Clone(res)
-	var err error
-	rep := lib.Safe(lib.DefaultDeadline, func() { err = fn(res) })
-	eq := proto.Equal(pre, res)
-	fmt.Printf("%-70s panic=%q err=%v eq=%v\n", what, rep.Panic, err, eq)
-}
-
 func main() {
-	o := &patch.Options{}
-	S := func(s string) *dtpb.String { return &dtpb.String{Value: s} }
-	try("add name[0].given String", func(r fhir.Resource) error { return patch.Add(r, "Patient.name[0]", "given", S("x"), o) })
-	try("add name[0].family String (populated)", func(r fhir.Resource) error { return patch.Add(r, "Patient.name[0]", "family", S("x"), o) })
-	try("add name[1].family String", func(r fhir.Resource) error { return patch.Add(r, "Patient.name[1]", "family", S("x"), o) })
-	try("add name[1].family Integer (wrong)", func(r fhir.Resource) error { return patch.Add(r, "Patient.name[1]", "family", &dtpb.Integer{Value: 3}, o) })
-	try("add name[1].family Boolean (wrong)", func(r fhir.Resource) error { return patch.Add(r, "Patient.name[1]", "family", &dtpb.Boolean{Value: true}, o) })
-	try("add name[1].text Code (sib)", func(r fhir.Resource) error { return patch.Add(r, "Patient.name[1]", "text", &dtpb.Code{Value: "x"}, o) })
-	try("add telecom[1].use String home(sib)", func(r fhir.Resource) error { return patch.Add(r, "Patient.telecom[1]", "use", S("home"), o) })
-	try("add telecom[1].use String bogus", func(r fhir.Resource) error { return patch.Add(r, "Patient.telecom[1]", "use", S("bogus"), o) })
-	try("add telecom[1].use Integer", func(r fhir.Resource) error { return patch.Add(r, "Patient.telecom[1]", "use", &dtpb.Integer{Value: 1}, o) })
-	try("add contact[1].name... rank Integer sib", func(r fhir.Resource) error { return patch.Add(r, "Patient.contact[1]", "telecom", &dtpb.ContactPoint{}, o) })
-	try("replace telecom[0].rank Integer(5) sib", func(r fhir.Resource) error { return patch.Replace(r, "Patient.telecom[0].rank", &dtpb.Integer{Value: 5}) })
-	try("replace telecom[0].rank Integer(-5)", func(r fhir.Resource) error { return patch.Replace(r, "Patient.telecom[0].rank", &dtpb.Integer{Value: -5}) })
-	try("replace telecom[0].rank PositiveInt(5)", func(r fhir.Resource) error { return patch.Replace(r, "Patient.telecom[0].rank", &dtpb.PositiveInt{Value: 5}) })
-	try("replace multipleBirth Integer(5)", func(r fhir.Resource) error { return patch.Replace(r, "Patient.multipleBirth", &dtpb.Integer{Value: 5}) })
-	try("replace multipleBirth Boolean", func(r fhir.Resource) error { return patch.Replace(r, "Patient.multipleBirth", &dtpb.Boolean{Value: true}) })
-	try("replace multipleBirth String(wrong)", func(r fhir.Resource) error { return patch.Replace(r, "Patient.multipleBirth", S("x")) })
-	try("replace ext[1].value Integer(5)", func(r fhir.Resource) error { return patch.Replace(r, "Patient.extension[1].value", &dtpb.Integer{Value: 5}) })
-	try("replace name[0].family nil", func(r fhir.Resource) error { return patch.Replace(r, "Patient.name[0].family", nil) })
-	try("insert name nil", func(r fhir.Resource) error { return patch.Insert(r, "Patient.name", nil, 0) })
-	try("insert name HumanName 0", func(r fhir.Resource) error { return patch.Insert(r, "Patient.name", &dtpb.HumanName{}, 0) })
-	try("insert name HumanName 3", func(r fhir.Resource) error { return patch.Insert(r, "Patient.name", &dtpb.HumanName{}, 3) })
-	try("insert name HumanName 4", func(r fhir.Resource) error { return patch.Insert(r, "Patient.name", &dtpb.HumanName{}, 4) })
-	try("insert name HumanName -1", func(r fhir.Resource) error { return patch.Insert(r, "Patient.name", &dtpb.HumanName{}, -1) })
-	try("insert name[0].given String 1", func(r fhir.Resource) error { return patch.Insert(r, "Patient.name[0].given", S("x"), 1) })
-	try("insert name.first().given String 1", func(r fhir.Resource) error { return patch.Insert(r, "Patient.name.first().given", S("x"), 1) })
-	try("insert contained Organization 0", func(r fhir.Resource) error { return patch.Insert(r, "Patient.contained", &opb.Organization{}, 0) })
-	try("add contained Organization", func(r fhir.Resource) error { return patch.Add(r, "Patient", "contained", &opb.Organization{}, o) })
-	try("insert gender (scalar)", func(r fhir.Resource) error { return patch.Insert(r, "Patient.gender", &dtpb.Code{Value: "x"}, 0) })
-	try("delete name[1]", func(r fhir.Resource) error { return patch.Delete(r, "Patient.name[1]") })
-	try("delete name (3)", func(r fhir.Resource) error { return patch.Delete(r, "Patient.name") })
-	try("delete name.given[0]", func(r fhir.Resource) error { return patch.Delete(r, "Patient.name.given[0]") })
-	try("delete name[0].given[0]", func(r fhir.Resource) error { return patch.Delete(r, "Patient.name[0].given[0]") })
-	try("delete name.where(use='nickname')", func(r fhir.Resource) error { return patch.Delete(r, "Patient.name.where(use = 'nickname')") })
-	try("delete name.where(use='nickname').given", func(r fhir.Resource) error { return patch.Delete(r, "Patient.name.where(use = 'nickname').given") })
-	try("delete name.first()", func(r fhir.Resource) error { return patch.Delete(r, "Patient.name.first()") })
-	try("delete name.last()", func(r fhir.Resource) error { return patch.Delete(r, "Patient.name.last()") })
-	try("delete name.first().given.last()", func(r fhir.Resource) error { return patch.Delete(r, "Patient.name.first().given.last()") })
-	try("delete birthDate", func(r fhir.Resource) error { return patch.Delete(r, "Patient.birthDate") })
-	try("delete birthDate.extension[0]", func(r fhir.Resource) error { return patch.Delete(r, "Patient.birthDate.extension[0]") })
-	try("delete birthDate.extension(url)", func(r fhir.Resource) error { return patch.Delete(r, "Patient.birthDate.extension('http://hl7.org/fhir/StructureDefinition/patient-birthTime')") })
-	try("delete extension(b)", func(r fhir.Resource) error { return patch.Delete(r, "Patient.extension('http://example.org/ext/b')") })
-	try("delete extension(b).value", func(r fhir.Resource) error { return patch.Delete(r, "Patient.extension('http://example.org/ext/b').value") })
-	try("delete extension(a)", func(r fhir.Resource) error { return patch.Delete(r, "Patient.extension('http://example.org/ext/a')") })
-	try("delete deceased", func(r fhir.Resource) error { return patch.Delete(r, "Patient.deceased") })
-	try("delete gender", func(r fhir.Resource) error { return patch.Delete(r, "Patient.gender") })
-	try("delete managingOrganization", func(r fhir.Resource) error { return patch.Delete(r, "Patient.managingOrganization") })
-	try("delete managingOrganization.reference", func(r fhir.Resource) error { return patch.Delete(r, "Patient.managingOrganization.reference") })
-	try("delete contact[0].organization.reference", func(r fhir.Resource) error { return patch.Delete(r, "Patient.contact[0].organization.reference") })
-	try("delete contained[0]", func(r fhir.Resource) error { return patch.Delete(r, "Patient.contained[0]") })
-	try("delete contained", func(r fhir.Resource) error { return patch.Delete(r, "Patient.contained") })
-	try("delete contained.name", func(r fhir.Resource) error { return patch.Delete(r, "Patient.contained.name") })
-	try("delete contained[0].alias[1]", func(r fhir.Resource) error { return patch.Delete(r, "Patient.contained[0].alias[1]") })
-	try("delete photo (absent)", func(r fhir.Resource) error { return patch.Delete(r, "Patient.photo") })
-	try("delete zzz (bad)", func(r fhir.Resource) error { return patch.Delete(r, "Patient.zzz") })
-	try("delete Patient", func(r fhir.Resource) error { return patch.Delete(r, "Patient") })
-	try("delete active.value", func(r fhir.Resource) error { return patch.Delete(r, "Patient.active.value") })
-	try("delete meta.tag[1]", func(r fhir.Resource) error { return patch.Delete(r, "Patient.meta.tag[1]") })
-	try("delete meta.tag[1].code", func(r fhir.Resource) error { return patch.Delete(r, "Patient.meta.tag[1].code") })
-	try("delete id", func(r fhir.Resource) error { return patch.Delete(r, "Patient.id") })
-	try("replace gender Code(female)", func(r fhir.Resource) error { return patch.Replace(r, "Patient.gender", &dtpb.Code{Value: "female"}) })
-	try("replace gender String(female)", func(r fhir.Resource) error { return patch.Replace(r, "Patient.gender", S("female")) })
-	try("replace deceased DateTime", func(r fhir.Resource) error { return patch.Replace(r, "Patient.deceased", &dtpb.DateTime{ValueUs: 1, Precision: dtpb.DateTime_DAY, Timezone: "UTC"}) })
-	try("replace deceased String (wrong)", func(r fhir.Resource) error { return patch.Replace(r, "Patient.deceased", S("x")) })
-	try("replace managingOrganization Reference", func(r fhir.Resource) error { return patch.Replace(r, "Patient.managingOrganization", &dtpb.Reference{}) })
-	try("replace managingOrganization.reference String", func(r fhir.Resource) error { return patch.Replace(r, "Patient.managingOrganization.reference", S("x")) })
-	try("replace managingOrganization.reference Uri", func(r fhir.Resource) error { return patch.Replace(r, "Patient.managingOrganization.reference", &dtpb.Uri{Value: "x"}) })
-	try("replace contact[0].organization.reference String", func(r fhir.Resource) error { return patch.Replace(r, "Patient.contact[0].organization.reference", S("Organization/x")) })
-	try("replace contained[0] Organization", func(r fhir.Resource) error { return patch.Replace(r, "Patient.contained[0]", &opb.Organization{}) })
-	try("replace contained[0].name String", func(r fhir.Resource) error { return patch.Replace(r, "Patient.contained[0].name", S("x")) })
-	try("replace name (3)", func(r fhir.Resource) error { return patch.Replace(r, "Patient.name", &dtpb.HumanName{}) })
-	try("replace name[1] HumanName", func(r fhir.Resource) error { return patch.Replace(r, "Patient.name[1]", &dtpb.HumanName{}) })
-	try("replace name[1] Address", func(r fhir.Resource) error { return patch.Replace(r, "Patient.name[1]", &dtpb.Address{}) })
-	try("replace name.where(nick)", func(r fhir.Resource) error { return patch.Replace(r, "Patient.name.where(use = 'nickname')", &dtpb.HumanName{}) })
-	try("replace birthDate.extension[0]", func(r fhir.Resource) error { return patch.Replace(r, "Patient.birthDate.extension[0]", &dtpb.Extension{}) })
-	try("replace photo (absent)", func(r fhir.Resource) error { return patch.Replace(r, "Patient.photo", &dtpb.Attachment{}) })
-	try("replace Patient", func(r fhir.Resource) error { return patch.Replace(r, "Patient", lib.LoadModelResource("MR4").(fhir.Resource)) })
-	try("move", func(r fhir.Resource) error { return patch.Move(r, "Patient.name", 0, 1) })
-	try("add nil res", func(r fhir.Resource) error { return patch.Add(nil, "Patient", "name", &dtpb.HumanName{}, o) })
-	try("add nil val", func(r fhir.Resource) error { return patch.Add(r, "Patient", "name", nil, o) })
-	try("add Patient.name (3) given", func(r fhir.Resource) error { return patch.Add(r, "Patient.name", "given", S("x"), o) })
-	try("add Patient zzz", func(r fhir.Resource) error { return patch.Add(r, "Patient", "zzz", S("x"), o) })
-	try("add Patient birth_date", func(r fhir.Resource) error { return patch.Add(r, "Patient", "birth_date", S("x"), o) })
-	try("add managingOrganization reference String", func(r fhir.Resource) error { return patch.Add(r, "Patient.link[0].other", "display", S("x"), o) })
-	try("add birthDate extension", func(r fhir.Resource) error { return patch.Add(r, "Patient.birthDate", "extension", &dtpb.Extension{}, o) })
-	try("add active id", func(r fhir.Resource) error { return patch.Add(r, "Patient.active", "id", S("i"), o) })
-	try("add active value Boolean", func(r fhir.Resource) error { return patch.Add(r, "Patient.active", "value", &dtpb.Boolean{}, o) })
-	try("add ext value (populated choice)", func(r fhir.Resource) error { return patch.Add(r, "Patient.extension[0]", "value", S("i"), o) })
-	try("add Patient deceased DateTime (populated choice)", func(r fhir.Resource) error { return patch.Add(r, "Patient", "deceased", &dtpb.Boolean{}, o) })
+	res := lib.LoadModelResource("MR2").(fhir.Resource)
+	for _, p := range []string{"Observation.effective", "Observation.value", "Observation.subject", "Observation.issued"} {
+		e, err := fhirpath.Compile(p)
+		if err != nil {
+			fmt.Println(p, err)
+			continue
+		}
+		c, err := e.Evaluate([]fhir.Resource{res})
+		fmt.Printf("%s -> %d items err=%v", p, len(c), err)
+		for _, x := range c {
+			fmt.Printf(" %T", x)
+		}
+		fmt.Println()
+	}
 }
